@@ -115,7 +115,8 @@ class Ctx:
         rec = {"property": self.prop, "what": what, "case": jsonable(case),
                "expected": jsonable(expected), "observed": jsonable(observed),
                "seed": self.seed, "tier": self.tier, "class": cls,
-               "hashseed": os.environ.get("PYTHONHASHSEED")}
+               "hashseed": os.environ.get("PYTHONHASHSEED"),
+               "shard_env": {k: os.environ[k] for k in ("VP_DJANGO_TZ",) if os.environ.get(k)}}
         for k in keys:
             if k in self.known:
                 e = self.known_seen.setdefault(k, {"n": 0, "witness": rec})
